@@ -358,6 +358,7 @@ static bool write_tree(binson_writer *w, int id)
     return true;
 }
 static int needed_depth(const vf_doc *d);
+static size_t CLAIM;
 static bool traverse_c05_mode(void);
 static bool traverse_c05(void)
 {
@@ -367,7 +368,12 @@ static bool traverse_c05(void)
     ALIAS_MODE = true;
     bool ok = traverse_c05_mode();
     ALIAS_MODE = false;
-    if (!ok) { char t[300]; snprintf(t, sizeof t, "with payloads staged inside the destination: %s", why); snprintf(why, sizeof why, "%s", t); }
+    if (!ok) { char t[300]; snprintf(t, sizeof t, "with payloads staged inside the destination: %s", why); snprintf(why, sizeof why, "%s", t); return false; }
+    /* a writer told that its capacity is SIZE_MAX ("unbounded") over a destination of exactly the encoded size */
+    CLAIM = SIZE_MAX;
+    ok = traverse_c05_mode();
+    CLAIM = 0;
+    if (!ok) { char t[300]; snprintf(t, sizeof t, "with a claimed capacity of SIZE_MAX: %s", why); snprintf(why, sizeof why, "%s", t); }
     return ok;
 }
 static bool traverse_c05_mode(void)
@@ -377,7 +383,7 @@ static bool traverse_c05_mode(void)
     memset(out, 0xA5, D->len);
     binson_writer w;
     memset(&w, 0x77, sizeof w);      /* a writer object holding arbitrary (but fixed) bytes before init */
-    binson_writer_init(&w, out, D->len);
+    binson_writer_init(&w, out, CLAIM ? CLAIM : D->len);
     if (isobj) binson_write_object_begin(&w); else binson_write_array_begin(&w);
     if (!write_tree(&w, 0)) return false;
     if (isobj) binson_write_object_end(&w); else binson_write_array_end(&w);
